@@ -1273,8 +1273,15 @@ class Container:
         # the cancellation error of (total - everything else), which for a trace in a large total is the whole amount
         for row in range(n + 1):
             entries = numpy.flatnonzero(a[row])
-            if len(entries) == 1 and entries[0] < n and b[row] != 0:
+            if len(entries) == 1 and entries[0] < n:
                 xs[entries[0]] = b[row] / a[row][entries[0]]
+        # ... and a trace solute whose concentration is stated has that share of what the rest of the mixture measures
+        # (the same cancellation hits it when the total is stated by mass or moles)
+        if concentration is not None:
+            for row in range(n):
+                if abs(xs[row]) <= 1e-9 * max(abs(xs)) and a[row][row] != 0 and b[row] == 0:
+                    xs[row] = -sum(a[row][column] * xs[column] for column in range(n + 1) if column != row) \
+                        / a[row][row]
         if any(x <= 0 for x in xs):
             raise ValueError("Solution is impossible to create.")
         # an amount that vanishes when stored (rounded to the internal precision) is not a solution either
